@@ -181,15 +181,17 @@ Definition loss_as_prev (c : cfg) (rgain : string -> Q) (r r' : list elem) : Q :
 (* span_loss(next_node) inside target_power: next_node is the first element of the span; the design_span_loss cache
    is hit only when the span is that single plain fibre.  Otherwise losses minus Raman gains, and the span's Raman
    fibres have not been visited by the walk yet, so nothing is cached for them: they are estimated without span input
-   power (c_rg; an estimate made that way is not cached - gnpy fix d3e2700d; before it: finding F23) *)
-Definition loss_as_next (c : cfg) (r r' : list elem) : res Q :=
+   power (an estimate made that way is not cached - gnpy fix d3e2700d; before it: finding F23).  That estimate is made
+   AFTER padding and sees the padded att_in of the fibre, so it is a different input (rgn) than the one padding itself
+   used (c_rg). *)
+Definition loss_as_next (c : cfg) (rgn : string -> Q) (r r' : list elem) : res Q :=
   match r with
-  | [Fib f] => if f_raman f then Ok (run_loss r' - raman_first (c_rg c) r')%Q else Ok (run_dsl c r)
-  | _ => Ok (run_loss r' - raman_first (c_rg c) r')%Q
+  | [Fib f] => if f_raman f then Ok (run_loss r' - raman_first rgn r')%Q else Ok (run_dsl c r)
+  | _ => Ok (run_loss r' - raman_first rgn r')%Q
   end.
 Definition is_amp_run (r : list elem) : bool := match r with [Amp _] => true | _ => false end.
 (* walk over the spans of a designed line: prev = the span before the current group (None: ROADM / amplifier) *)
-Fixpoint amp_items (c : cfg) (rgain : string -> Q) (opsf : string -> ain) (ptot : Q) (dst_roadm : bool)
+Fixpoint amp_items (c : cfg) (rgain rgn : string -> Q) (opsf : string -> ain) (ptot : Q) (dst_roadm : bool)
   (prev : option (list elem * list elem)) (gs : list (list elem * list elem)) : res (list (actx * ain)) :=
   match gs with
   | [] => Ok []
@@ -203,21 +205,21 @@ Fixpoint amp_items (c : cfg) (rgain : string -> Q) (opsf : string -> ain) (ptot 
                       | None =>
                           match t with
                           | [] => if dst_roadm then Ok NRoadm else Err "AttributeError:target_power of a Transceiver"
-                          | (n, n') :: _ => if is_amp_run n then Ok (NLoss 0) else let* l := loss_as_next c n n' in Ok (NLoss l)
+                          | (n, n') :: _ => if is_amp_run n then Ok (NLoss 0) else let* l := loss_as_next c rgn n n' in Ok (NLoss l)
                           end
                       end) in
-          let* rest := amp_items c rgain opsf ptot dst_roadm None t in
+          let* rest := amp_items c rgain rgn opsf ptot dst_roadm None t in
           Ok ((mkX xl nx ptot, opsf (a_name a)) :: rest)
-      | _ => amp_items c rgain opsf ptot dst_roadm (Some (r, r')) t
+      | _ => amp_items c rgain rgn opsf ptot dst_roadm (Some (r, r')) t
       end
   end.
 (* the amplifier settings of a whole line whose fibres are designed (els: after add_missing + add_connector_loss,
    before padding) *)
 Definition design_line_amps (c : cfg) (s : scfg) (lib : string -> option alib) (sel : string -> string)
-  (rgain : string -> Q) (opsf : string -> ain) (D0 ptot : Q) (dst_roadm : bool) (els : list elem) : res (list aout) :=
+  (rgain rgn : string -> Q) (opsf : string -> ain) (D0 ptot : Q) (dst_roadm : bool) (els : list elem) : res (list aout) :=
   let pre := runs els in
   let* post := mapM (pad_run c) pre in
-  let* items := amp_items c rgain opsf ptot dst_roadm None (combine pre post) in
+  let* items := amp_items c rgain rgn opsf ptot dst_roadm None (combine pre post) in
   design_amps s lib sel D0 items.
 
 (* ---------- the complete design of a line and its export / reload ---------- *)
@@ -227,11 +229,11 @@ Fixpoint ops_lookup (k : string) (l : list ain) (d : ain) : ain :=
 Definition ops_of (l : list ain) (k : string) : ain := ops_lookup k l (mkIn k "" None None (Some 0%Q) None None).
 (* fibre side (add_missing, connector losses, padding) and amplifier settings of one line *)
 Definition design_full (c : cfg) (s : scfg) (lib : string -> option alib) (sel : string -> string)
-  (rgain : string -> Q) (opsf : string -> ain) (D0 ptot : Q) (l : line) : res (line * list aout) :=
+  (rgain rgn : string -> Q) (opsf : string -> ain) (D0 ptot : Q) (l : line) : res (line * list aout) :=
   let* l1 := add_missing c l in
   let els := conn c (l_els l1) in
   let* p := pad_chain c els in
-  let* outs := design_line_amps c s lib sel rgain opsf D0 ptot (match l_dk l with Roadm => true | Trx => false end) els in
+  let* outs := design_line_amps c s lib sel rgain rgn opsf D0 ptot (match l_dk l with Roadm => true | Trx => false end) els in
   Ok (with_els l1 p, outs).
 (* network_to_json restricted to the line: its elements and the operational blocks of its amplifiers *)
 Definition export_full (r : line * list aout) : list elem * list ain :=
